@@ -105,6 +105,14 @@ func (n *decoratorNode) Call(s containerStore) (err error) {
 	}
 
 	n.state = decoratorOnStack
+	defer func() {
+		// A decorator that failed (error, missing dependencies or panic) has
+		// not run: make it callable again instead of leaving it "on stack",
+		// which would make every later consumer silently skip it.
+		if n.state != decoratorCalled {
+			n.state = decoratorReady
+		}
+	}()
 
 	if err := shallowCheckDependencies(s, n.params); err != nil {
 		return errMissingDependencies{
